@@ -33,8 +33,9 @@ fn drive_shared<'a, const N: usize, P: Pad>(
     ctx: &mut Ctx,
 ) {
     let (want, _, _) = run_script(a, b, script);
-    let (mut lo, mut hi) = (a, b);
+    let mut w = Win { lo: a, hi: b };
     for (i, s) in script.iter().enumerate() {
+        let (lo, hi) = (w.lo, w.hi);
         let rem = hi - lo;
         if it.len() != rem || it.size_hint() != (rem, Some(rem)) {
             bad(ctx, N, kind, "wrong_len", format!("step {}: len()={} size_hint={:?} expected {}", i, it.len(), it.size_hint(), rem));
@@ -46,25 +47,18 @@ fn drive_shared<'a, const N: usize, P: Pad>(
         if cl != wcl {
             bad(ctx, N, kind, "clone_diverges", format!("step {}: clone yields {:?} expected {:?}", i, cl, wcl));
         }
-        let x = match s {
-            Step::F => it.next(),
-            Step::B => it.next_back(),
-        };
+        let x = apply_step(&mut it, *s);
         let got = x.map(|t| (t.peek("iter.item").0, t as *const TokG<P> as usize));
-        let w = want[i].map(|p| (obs.ids[p], obs.addrs[p]));
-        if got != w {
-            bad(ctx, N, kind, "wrong_item", format!("step {} {:?}: got {:?} expected {:?}", i, s, got, w));
+        let wi = want[i].map(|p| (obs.ids[p], obs.addrs[p]));
+        if got != wi {
+            bad(ctx, N, kind, "wrong_item", format!("step {} {:?}: got {:?} expected {:?}", i, s, got, wi));
         }
-        if let Some(p) = want[i] {
-            match s {
-                Step::F => lo = p + 1,
-                Step::B => hi = p,
-            }
-        }
+        w.step(*s);
         // the clone taken before this step is unaffected (checked above by construction); the
         // original must now have one fewer
         ctx.count("iter_steps", 1);
     }
+    let (lo, hi) = (w.lo, w.hi);
     let rem = hi - lo;
     if it.len() != rem {
         bad(ctx, N, kind, "wrong_len", format!("end: len()={} expected {}", it.len(), rem));
@@ -95,35 +89,41 @@ fn drive_mut<'a, const N: usize, P: Pad>(
     ctx: &mut Ctx,
 ) {
     let (want, _, _) = run_script(a, b, script);
-    let (mut lo, mut hi) = (a, b);
+    let mut w = Win { lo: a, hi: b };
     // all yielded &mut are kept alive together: no two may address the same slot
     let mut held: Vec<&'a mut TokG<P>> = Vec::new();
+    let mut skipped: Vec<usize> = Vec::new();
     for (i, s) in script.iter().enumerate() {
-        let rem = hi - lo;
+        let rem = w.len();
         if it.len() != rem || it.size_hint() != (rem, Some(rem)) {
             bad(ctx, N, kind, "wrong_len", format!("step {}: len()={} size_hint={:?} expected {}", i, it.len(), it.size_hint(), rem));
         }
-        let x = match s {
-            Step::F => it.next(),
-            Step::B => it.next_back(),
-        };
+        let x = apply_step(&mut it, *s);
         let got = x.map(|t| {
             let k = (t.peek("itermut.item").0, t as *const TokG<P> as usize);
             held.push(t);
             k
         });
-        let w = want[i].map(|p| (obs.ids[p], obs.addrs[p]));
-        if got != w {
-            bad(ctx, N, kind, "wrong_item", format!("step {} {:?}: got {:?} expected {:?}", i, s, got, w));
+        let wi = want[i].map(|p| (obs.ids[p], obs.addrs[p]));
+        if got != wi {
+            bad(ctx, N, kind, "wrong_item", format!("step {} {:?}: got {:?} expected {:?}", i, s, got, wi));
         }
-        if let Some(p) = want[i] {
-            match s {
-                Step::F => lo = p + 1,
-                Step::B => hi = p,
+        // positions skipped by nth / nth_back are consumed without being handed out
+        let before = w;
+        w.step(*s);
+        for p in before.lo..w.lo {
+            if Some(p) != want[i] {
+                skipped.push(p);
+            }
+        }
+        for p in w.hi..before.hi {
+            if Some(p) != want[i] {
+                skipped.push(p);
             }
         }
         ctx.count("iter_steps", 1);
     }
+    let (lo, hi) = (w.lo, w.hi);
     let d = format!("{:?}", it);
     let wd = format!("{:?}", &obs.vals[lo..hi]);
     if d != wd {
@@ -146,7 +146,7 @@ fn drive_mut<'a, const N: usize, P: Pad>(
     if addrs.windows(2).any(|w| w[0] == w[1]) {
         bad(ctx, N, kind, "aliased_mut", format!("iter_mut yielded one address twice: {:?}", addrs));
     }
-    let mut wa: Vec<usize> = obs.addrs[a..b].to_vec();
+    let mut wa: Vec<usize> = (a..b).filter(|p| !skipped.contains(p)).map(|p| obs.addrs[p]).collect();
     wa.sort_unstable();
     if addrs != wa {
         bad(ctx, N, kind, "wrong_set", format!("iter_mut yielded addresses {:?} expected {:?}", addrs, wa));
@@ -158,7 +158,8 @@ pub fn iters<const N: usize, P: Pad>(ctx: &mut Ctx) {
     let starts = if N == 0 { 1 } else { N };
     let _ = items_off::<N, P>();
     let mut vc = 999u32;
-    let all_scripts = scripts_upto(N + 2);
+    let mut all_scripts = scripts_upto(N + 2);
+    all_scripts.extend(nth_scripts());
     // default-constructed iterators are empty
     if ctx.mine_next() && ctx.begin_case(|| format!("iters N={} default-constructed iterators", N)) {
         let mut i: Iter<'_, TokG<P>> = Default::default();
